@@ -204,13 +204,22 @@ pub fn run(tier: Tier) -> i32 {
     let monitor = std::sync::Arc::new(HangMonitor::start(rep, "C02 generator history"));
     rep.set_rule("HIST (stateright BFS): all call histories over {generate_step with buffer fp, fp+1, 2fp, 3fp; synthesized_frames; generate_all (terminal)} up to depth N+3 on real generators of N = 0..5 frames (tiny generated voices, both filter families, 2 and 3 streams, frame periods 1 and 4); every transition rebuilds a fresh generator and replays the history; no state merging; half of the engines with the postfilter on (beta 0.3-0.5), volume and half tone set; plus on V0 (beta 0.3): constant and cycling buffer sizes to exhaustion and generate_all after exactly k steps for every k; non-trivial = history contains at least one step or finish");
     rep.assume("buffers no larger than 3 x fperiod; what a step does to buffer samples beyond the first fperiod is not constrained");
-    let mut total_states = 0u64;
-    for case in tiny_cases(tier) {
+    let total_states = AtomicU64::new(0);
+    let case_no = AtomicU64::new(0);
+    // stateright shares work between its threads only every 1500 expanded states, which is coarse for models whose
+    // transitions cost a fraction of a millisecond: the cases are explored side by side instead
+    let cases = tiny_cases(tier);
+    std::thread::scope(|scope| {
+    for case in &cases {
+        let total_states = &total_states;
+        let case_no = &case_no;
+        let monitor = &monitor;
+        scope.spawn(move || {
         let oneshot = match synth(&case.engine, &case.labels) {
             Ok(w) => w,
             Err(e) => {
                 rep.violation("oneshot", format!("one-shot synthesis fails: {}", e), json!({"voice": case.name}));
-                continue;
+                return;
             }
         };
         let fp = case.engine.condition.get_fperiod();
@@ -218,7 +227,13 @@ pub fn run(tier: Tier) -> i32 {
         let depth = (nframes + 3).min(tier.pick(6, 8));
         let extras = vec![0, 1, fp, 2 * fp];
         let mut counts = Vec::new();
-        for threads in [nthreads(), 2] {
+        for threads in [4usize, 2] {
+            // the second exploration only cross-checks the explorer's own determinism; in the quick tier it is
+            // skipped for the large cases
+            if threads == 2 && tier == Tier::Quick && counts.first().map(|c| *c > 8000).unwrap_or(false) {
+                counts.push(counts[0]);
+                continue;
+            }
             let model = GenModel {
                 engine: case.engine.clone(),
                 labels: case.labels.clone(),
@@ -236,18 +251,18 @@ pub fn run(tier: Tier) -> i32 {
             let checker = model.checker().threads(threads).target_max_depth(depth + 2).spawn_bfs().join();
             counts.push(checker.unique_state_count());
             rep.guard(checker.model().checked_last.load(Ordering::Relaxed) > 0, "invariant never evaluated on histories at the depth bound");
-            if threads != nthreads() {
+            if threads != 4 {
                 continue;
             }
             let tr = checker.model().transitions.load(Ordering::Relaxed);
-            total_states += checker.unique_state_count() as u64;
+            total_states.fetch_add(checker.unique_state_count() as u64, Ordering::Relaxed);
             rep.states.fetch_add(checker.unique_state_count() as u64, Ordering::Relaxed);
             rep.transitions.fetch_add(tr, Ordering::Relaxed);
             rep.traces.fetch_add(tr, Ordering::Relaxed);
             rep.eval(tr);
             rep.nontrivial.fetch_add(checker.unique_state_count() as u64 - 1, Ordering::Relaxed);
             let fin = checker.model().finish_at.lock().unwrap().clone();
-            rep.note(&format!("case_{}", rep.states.load(Ordering::Relaxed)), json!({"voice": case.name, "frames": nframes, "fperiod": fp, "depth": depth, "unique_states": checker.unique_state_count(), "transitions": tr, "finish_after_k_steps": fin, "histories_with_mixed_buffer_sizes": checker.model().mixed_sizes.load(Ordering::Relaxed)}));
+            rep.note(&format!("case_{}", case_no.fetch_add(1, Ordering::Relaxed)), json!({"voice": case.name, "frames": nframes, "fperiod": fp, "depth": depth, "unique_states": checker.unique_state_count(), "transitions": tr, "finish_after_k_steps": fin, "histories_with_mixed_buffer_sizes": checker.model().mixed_sizes.load(Ordering::Relaxed)}));
             rep.guard((0..=nframes.min(depth - 1)).all(|k| fin.contains(&k)), "generate_all not reached after every k");
             rep.guard(nframes == 0 || checker.model().mixed_sizes.load(Ordering::Relaxed) > 0, "no history with two buffer sizes");
             for (_n, path) in checker.discoveries() {
@@ -269,10 +284,12 @@ pub fn run(tier: Tier) -> i32 {
             rep.sample(json!({"voice": case.name, "frames": nframes, "history": [op_json(&Op::Step(1), fp), op_json(&Op::Frames, fp), op_json(&Op::Finish, fp)]}));
         }
         if rep.violation_count() == 0 && counts[0] != counts[1] {
-            crate::elog!("MACHINERY: state counts differ between thread counts: {:?}", counts);
-            return 2;
+            rep.guard(false, &format!("state counts differ between thread counts: {:?}", counts));
         }
+        });
     }
+    });
+    let total_states = total_states.load(Ordering::Relaxed);
     // V0 structured families on a 3-label utterance
     let corpus = labels::corpus();
     let mut v0 = engine_pk(&[0]);
